@@ -990,3 +990,95 @@ Proof.
   pose proof (length_of_homopolymer_le ref (pos + 1) 1 cut).
   pose proof (length_of_homopolymer_le ref pos (-1) cut). lia.
 Qed.
+
+(* ----------------------------- the repaired rule changes nothing on inputs without phased calls *)
+Lemma vset_key_In : forall p m V q, In q (map fst (vset p m V)) -> q = p \/ In q (map fst V).
+Proof.
+  intros p m V. induction V as [|[q0 m0] t IH]; intros q H; cbn [vset map fst In] in *.
+  - destruct H as [H|[]]. left; symmetry; exact H.
+  - destruct (p =? q0) eqn:E; cbn [map fst In] in H.
+    + right. exact H.
+    + destruct H as [H|H]; [right; left; exact H|]. destruct (IH q H) as [H1|H1]; [left; exact H1|right; right; exact H1].
+Qed.
+
+Lemma vset_keys_NoDup : forall p m V, NoDup (map fst V) -> NoDup (map fst (vset p m V)).
+Proof.
+  intros p m V. induction V as [|[q0 m0] t IH]; intros H; cbn [vset map fst].
+  - constructor; [intros []|constructor].
+  - cbn [map fst] in H. inversion H as [|? ? Hnot Hnd]; subst.
+    destruct (p =? q0) eqn:E; cbn [map fst].
+    + constructor; assumption.
+    + constructor; [|apply IH; exact Hnd].
+      intro Hin. apply vset_key_In in Hin. destruct Hin as [Hin|Hin]; [|exact (Hnot Hin)].
+      apply Z.eqb_neq in E. apply E. symmetry. exact Hin.
+Qed.
+
+Lemma compute_votes_keys_NoDup : forall ivs reads V, compute_votes ivs reads = Ok V -> NoDup (map fst V).
+Proof.
+  intros ivs reads V H. unfold compute_votes in H.
+  apply (fold_res_inv (vote_read ivs) (fun V => NoDup (map fst V)) reads [] V); [|constructor|exact H].
+  intros a r a' _ Ha Hs. unfold vote_read in Hs.
+  destruct ((r_hp r - 1 <? 0) || (r_ps r - 1 <? 0)); [inversion Hs; subst; exact Ha|].
+  destruct (1 <? r_hp r - 1); [inversion Hs; subst; exact Ha|].
+  apply (fold_res_inv (vote_variant ivs (r_ps r - 1) (r_hp r - 1)) (fun V => NoDup (map fst V)) (r_vars r) a a'); auto.
+  intros b v b' _ Hb Hv. unfold vote_variant in Hv.
+  destruct (find_iv (rv_pos v) ivs) as [iv|]; [|discriminate].
+  destruct (is_hom (iv_g iv)); [inversion Hv; subst; exact Hb|].
+  destruct (a2id (iv_g iv) (rv_allele v)) as [i|]; [|discriminate].
+  destruct (inner_add _ _ _) as [m2|]; [|discriminate].
+  inversion Hv; subst. apply vset_keys_NoDup. exact Hb.
+Qed.
+
+Lemma cons_fold_rules_agree : forall pr ref ivs (V : votes) (st : cstate),
+  NoDup (map fst V) -> (forall p, In p (map fst V) -> cget p (snd st) = None) ->
+  fold_res (cons_step Fixed pr ref ivs) V st = fold_res (cons_step Cur pr ref ivs) V st.
+Proof.
+  intros pr ref ivs V. induction V as [|[p m] t IH]; intros st Hnd Hnone; [reflexivity|].
+  cbn [fold_res]. cbn [map fst] in Hnd. inversion Hnd as [|? ? Hnot Hnd']; subst.
+  assert (Hstep : cons_step Fixed pr ref ivs st (p, m) = cons_step Cur pr ref ivs st (p, m)).
+  { unfold cons_step. cbn [fst snd]. rewrite (Hnone p (or_introl eq_refl)). reflexivity. }
+  rewrite Hstep. destruct (cons_step Cur pr ref ivs st (p, m)) as [st'|e] eqn:E; [|reflexivity].
+  apply IH; [exact Hnd'|].
+  intros q Hq. assert (Hqp : q <> p) by (intro Heq; subst q; exact (Hnot Hq)).
+  assert (Hq0 : cget q (snd st) = None) by (apply Hnone; right; exact Hq).
+  unfold cons_step in E. cbn [fst snd] in E.
+  destruct (best_candidate m) as [[[[bi ps] score] tot]|e]; [|discriminate].
+  destruct (find_iv p ivs) as [iv1|]; [|discriminate].
+  destruct (negb (is_some (iv_phase iv1)) && _).
+  - inversion E; subst st'. cbn [snd]. rewrite cget_cset_other; assumption.
+  - destruct (nth_z (iv_g iv1) bi); [|discriminate]. destruct (nth_z (iv_g iv1) (1 - bi)); [|discriminate].
+    inversion E; subst st'. cbn [snd]. rewrite cget_cset_other; assumption.
+Qed.
+
+Lemma keep_fold_none : forall l st, (forall iv, In iv l -> kept_phase iv = None) -> fold_left keep_step l st = st.
+Proof.
+  induction l as [|x t IH]; intros st H; [reflexivity|]. cbn [fold_left].
+  unfold keep_step at 2. rewrite (H x (or_introl eq_refl)). apply IH. intros iv Hin. apply H. right. exact Hin.
+Qed.
+
+Lemma map_res_ext : forall {A B} (f g : A -> res B) l, (forall x, In x l -> f x = g x) -> map_res f l = map_res g l.
+Proof.
+  intros A B f g l. induction l as [|x t IH]; intros H; [reflexivity|]. cbn [map_res].
+  rewrite (H x (or_introl eq_refl)). rewrite IH; [reflexivity|]. intros y Hy. apply H. right. exact Hy.
+Qed.
+
+Theorem rules_agree_on_unphased : forall pr ref inp readss,
+  (forall r c, In r inp -> In c (v_calls r) -> c_phased c = false) ->
+  haplotagphase Fixed pr ref inp readss = haplotagphase Cur pr ref inp readss.
+Proof.
+  intros pr ref inp readss Hun. unfold haplotagphase.
+  rewrite (map_res_ext (fun sr => run_sample Fixed pr ref (sample_view inp (fst sr)) (snd sr))
+                       (fun sr => run_sample Cur pr ref (sample_view inp (fst sr)) (snd sr))); [reflexivity|].
+  intros [s reads] _. cbn [fst snd]. unfold run_sample.
+  destruct (compute_votes (sample_view inp s) reads) as [V|e] eqn:EV; [|reflexivity].
+  rewrite !consensus_unfold. unfold init_state.
+  rewrite keep_fold_none.
+  - rewrite (cons_fold_rules_agree pr ref (sample_view inp s) V ([], [])); [reflexivity| |].
+    + apply (compute_votes_keys_NoDup _ _ _ EV).
+    + intros p _. reflexivity.
+  - intros iv Hin. apply sample_view_In in Hin. destruct Hin as [r [Hr He]]. subst iv.
+    unfold kept_phase, ivar_of. cbn [iv_phase]. unfold extract_phase.
+    assert (Hc : c_phased (nth s (v_calls r) dcall) = false).
+    { destruct (nth_in_or_default s (v_calls r) dcall) as [H|H]; [exact (Hun r _ Hr H)|rewrite H; reflexivity]. }
+    rewrite Hc. reflexivity.
+Qed.
